@@ -228,8 +228,9 @@ impl Basis {
         for (i, (&x_i, &d_i)) in x_basic.iter().zip(direction.iter()).enumerate() {
             // Only consider positive direction (leaving basis)
             if d_i > tolerance {
-                let ratio = x_i / d_i;
-                if ratio >= 0.0 && ratio < best_ratio {
+                // a basic value rounded slightly below zero still blocks at ratio 0
+                let ratio = x_i.max(0.0) / d_i;
+                if ratio < best_ratio {
                     best_ratio = ratio;
                     best_idx = Some(i);
                 }
